@@ -223,6 +223,7 @@ type State struct {
 	ghost  map[string]Term
 	defers []func(*State)
 	dead   bool
+	gepoch int // ghost epoch: ghost entries created lazily after a callee with ghost effects get fresh symbols
 }
 
 func (s *State) clone() *State {
@@ -234,6 +235,7 @@ func (s *State) clone() *State {
 		pc:     append([]Hyp(nil), s.pc...),
 		ghost:  make(map[string]Term, len(s.ghost)),
 		defers: append([]func(*State){}, s.defers...),
+		gepoch: s.gepoch,
 	}
 	for k, v := range s.vars {
 		n.vars[k] = v
